@@ -1,7 +1,8 @@
 (* mx_sync42: runs the extracted Sync42 models on cases read from stdin (one per line).
      lru CAP ; op ; op ...   (i K ID SZ | n K ID SZ | l K | r K | p | s)   same format as the harness
      wl SLOTS ; op ; ...     (L V | K J wake | U K | N | S K V | G K | H K | C) -> one token per op
-     wcq SLOTS LIMIT MOD ; in in .. ; in .. | tid:what:a:b:c ...   -> ACCEPT ... / REJECT n *)
+     wcq SLOTS LIMIT MOD [EXTRA [lenient]] ; in in .. ; in .. | tid:what:a:b:c ...
+                             -> ACCEPT ... / REJECT n   (strict wake-up discipline unless lenient) *)
 open Gen_sync42
 
 let rec pos_of_int (i : int) : positive =
@@ -101,6 +102,7 @@ let evk_of = function
   | "wait" -> Some EvWait | "woke" -> Some EvWoke | "saw_output" -> Some EvSawOutput
   | "unlink" -> Some EvUnlink | "notify_available" -> Some EvNotifyAvailable
   | "notify_head" -> Some EvNotifyHead | "leader" -> Some EvLeader
+  | "notify_available_pre" -> Some EvNotifyAvailablePre | "notify_head_pre" -> Some EvNotifyHeadPre
   | "core_locked" -> Some EvCoreLocked | "iter_next" -> Some EvIterNext | "store" -> Some EvStore
   | "stole" -> Some EvStole | "break" -> Some EvBreak | "batched" -> Some EvBatched
   | "work" -> Some EvWork | "gave" -> Some EvGave | "clear" -> Some EvClear
@@ -122,17 +124,21 @@ let wcq_case (rest : string) : string =
     (match String.split_on_char ';' cfg with
      | hd :: progs ->
        (match words hd with
-        | [slots; limit; modulus] ->
+        | slots :: limit :: modulus :: more ->
+          let extra = (match more with x :: _ -> ti x | [] -> O) in
+          let strict = (match more with _ :: "lenient" :: _ -> false | _ -> true) in
           let progs = List.map (fun p -> List.map ni (words p)) progs in
           let tr = List.map parse_event (words evs) in
-          (match accept (ti slots) (ti limit) (ni modulus) progs tr with
+          (match accept strict (ti slots) (ti limit) (ni modulus) extra progs tr with
            | Inr n -> Printf.sprintf "REJECT %d" (int_of_nat n)
            | Inl (((fin, res), batches), links) ->
              let r = String.concat " " (List.mapi (fun t rs ->
                  Printf.sprintf "%d:%s" t (String.concat "," (List.map (fun (idx, o) ->
                      Printf.sprintf "%d>%s" (int_of_nat idx) (show_hout o)) rs))) res) in
+             let rec take k l = if k = 0 then [] else (match l with [] -> [] | x :: r -> x :: take (k - 1) r) in
              let b = String.concat ";" (List.map (fun ((first, taken), outs) ->
-                 String.concat "," (List.map (fun ((a, _), _) -> string_of_int (int_of_n a)) outs)) batches) in
+                 String.concat "," (List.map (fun ((a, _), _) -> string_of_int (int_of_n a))
+                                      (take (int_of_nat taken) outs))) batches) in
              let l = String.concat "," (List.map (fun (t, i) ->
                  Printf.sprintf "%d:%d" (int_of_nat t) (int_of_n i)) links) in
              Printf.sprintf "ACCEPT %s R %s | B %s | L %s" (if fin then "finished" else "unfinished") r b l)
@@ -150,11 +156,12 @@ let mc_case (rest : string) : string =
   match String.split_on_char ';' rest with
   | hd :: progs ->
     (match words hd with
-     | [slots; limit; modulus; maxs] ->
+     | slots :: limit :: modulus :: maxs :: more ->
+       let extra = (match more with x :: _ -> ti x | [] -> O) in
        let progs_i = List.map (fun p -> List.map int_of_string (words p)) progs in
        let progs = List.map (fun p -> List.map n_of_int p) progs_i in
        let nthreads = List.length progs in
-       let g0 = h_init (ti slots) (ti limit) (ni modulus) progs in
+       let g0 = h_init (ti slots) (ti limit) (ni modulus) extra progs in
        let seen = Hashtbl.create 100000 in
        let key g = Marshal.to_string g [] in
        let q = Queue.create () in
@@ -182,7 +189,9 @@ let mc_case (rest : string) : string =
            if all_finished g then begin
              incr nfinal;
              (* results *)
-             let flat = List.concat (List.map (fun ((_, _), outs) -> List.map (fun ((a, _), _) -> int_of_n a) outs) g.g_batches) in
+             let rec take k l = if k = 0 then [] else (match l with [] -> [] | x :: r -> x :: take (k - 1) r) in
+             let flat = List.concat (List.map (fun ((_, taken), outs) ->
+                 List.map (fun ((a, _), _) -> int_of_n a) (take (int_of_nat taken) outs)) g.g_batches) in
              let links = List.map (fun (_, i) -> int_of_n i) g.g_links in
              if flat <> links then (bad := Some "batches differ from link order"; raise Exit);
              if List.sort compare flat <> List.sort compare (List.concat progs_i) then (bad := Some "inputs not exactly once"; raise Exit);
